@@ -150,15 +150,33 @@ CONTENTS = [
 ]
 
 
-def content(rng, big: int = 0) -> str:
-    """Small literal contents, or (thorough) a compact token `@@BIG:<chars>:<k>` expanded by `expand`."""
+def content(rng, big: int = 0, buf: int = 0, p_sized: float = 0.0) -> str:
+    """Small literal contents; (thorough) a compact token `@@BIG:<chars>:<k>`; or, with probability `p_sized`, a
+    multi-byte text `@@MB:<bytes>:<density>:<nl>` whose UTF-8 length sits on / next to a multiple of the connector's
+    transferBufferSize `buf` (expanded by `expand`)."""
+    if buf and rng.random() < p_sized:
+        m = rng.choice([1, 1, 2, 2, 3, 5])
+        nbytes = max(1, m * buf + rng.choice([-1, 0, 1, 1, 7, buf // 2]))
+        return f"@@MB:{nbytes}:{rng.choice([0, 1, 2, 2])}:{rng.choice([0, 1])}"
     if big and rng.random() < 0.08:
         n = rng.choice([4096, 65536, 70000, big])
         return f"@@BIG:{max(1, n // 2)}:{rng.randint(0, 9)}"
     return rng.choice(CONTENTS)
 
 
+_MB_UNITS = ["plain ascii line with one ü\n", "aü✓b日 mixed é\n", "日本語✓テキスト漢字\n"]
+
+
 def expand(data: str) -> str:
+    if data.startswith("@@MB:"):
+        _, nbytes, density, nl = data.split(":")
+        nbytes, unit = int(nbytes), _MB_UNITS[int(density)]
+        ub = unit.encode("utf-8")
+        text = (ub * (nbytes // len(ub) + 1))[:nbytes].decode("utf-8", errors="ignore")
+        if int(nl) and text.endswith("\n"):
+            text = text[:-1] + "z"  # no trailing newline in this variant
+        text += "x" * (nbytes - len(text.encode("utf-8")))  # exact UTF-8 length
+        return text
     if not data.startswith("@@BIG:"):
         return data
     _, n, k = data.split(":")
